@@ -69,19 +69,30 @@ def _add_failure(ctx):
     ek = du.slice_operand(entries[0][1]["args"][1])
     ctx.check(ek.has_param(2) and not ek.has_param(3) and recv.has_call("HashMap::entry"), "C18.D1", "outer-key-is-address", site(b, entries[0][0]), ok="reports grouped by reported address", bad="the outer map is not keyed by the address")
     # idempotence: lookup closure result decides an early return
-    maps = [(bb, t) for bb, t in calls_to(b, "Option::map") if du.slice_operand(t["args"][0]).has_field("MetaStore", "failures")]
-    if not ctx.floor("C18.D1", "lookup of an existing report", len(maps), 1):
-        return
-    look = [c for c in F.children(b) if calls_to(c, "HashMap::contains_key")]
+    # the duplicate test, in either spelling: `failures.get(&address).map(|m| m.contains_key(&reporter))` (lookup in a
+    # closure) or a match / if-let around a direct contains_key call
     from ..lib import captures_with as _cw
-    ctx.check(any(_cw(F, c, DefUse(c).slice_operand(t["args"][1]), lambda v: v.has_param(3) and not v.has_param(2)) for c in look for bb, t in calls_to(c, "HashMap::contains_key")), "C18.D1", "lookup-by-reporter", site(b),
-              ok="existing report looked up by reporter id", bad="the duplicate test does not look the reporter id up")
+    maps = [(bb, t) for bb, t in calls_to(b, "Option::map") if du.slice_operand(t["args"][0]).has_field("MetaStore", "failures")]
+    look = [c for c in F.children(b) if calls_to(c, "HashMap::contains_key")]
+    direct = [(bb, t) for bb, t in calls_to(b, "HashMap::contains_key") if du.slice_operand(t["args"][1]).has_param(3) and not du.slice_operand(t["args"][1]).has_param(2)]
+    gets = [(bb, t) for bb, t in calls_to(b, "HashMap::get") if du.slice_operand(t["args"][0], deep=False).has_field("MetaStore", "failures") or (MS, "failures") in du.slice_operand(t["args"][0], deep=False).fields]
+    by_rep = bool(direct) or any(_cw(F, c, DefUse(c).slice_operand(t["args"][1]), lambda v: v.has_param(3) and not v.has_param(2)) for c in look for bb, t in calls_to(c, "HashMap::contains_key"))
+    if not ctx.floor("C18.D1", "lookup of an existing report", len(maps) + len(direct), 1):
+        return
+    ctx.check(by_rep, "C18.D1", "lookup-by-reporter", site(b), ok="existing report looked up by reporter id", bad="the duplicate test does not look the reporter id up")
     bumps = [bb for bb, t in calls_to(b, "bump_global_epoch")]
-    for name, val in (("present", Some(Bool(True))), ("absent-reporter", Some(Bool(False))), ("absent-address", NONE)):
-        def call(interp, bb, term, argvals, val=val):
+    for name, val, found in (("present", Some(Bool(True)), True), ("absent-reporter", Some(Bool(False)), True), ("absent-address", NONE, False)):
+        def call(interp, bb, term, argvals, val=val, found=found, name=name):
             for mb, mt in maps:
                 if mt is term:
                     return val
+            if not maps:
+                for db, dt in direct:
+                    if dt is term:
+                        return Bool(name == "present")
+                for gb, gt in gets:
+                    if gt is term:
+                        return Some(TOP) if found else NONE
             return None
         res = Interp(F, b, Oracle(call=call)).run()
         reach = ibb in res.exec_blocks
